@@ -537,6 +537,19 @@ func (g *Gen) evolveType(t *TyDef, depth int) *TyDef {
 			}
 		}
 		var fs []*FieldDef
+		// a nested struct now and then loses ALL its fields (or keeps only fields that are not encoded): the
+		// reader's type for it is empty, the data still carries a payload for it
+		emptied := depth > 0 && g.r.P(12)
+		if emptied {
+			g.count("evolve.emptied")
+			switch g.r.Intn(3) {
+			case 0:
+				return Struct()
+			case 1:
+				return Struct(&FieldDef{Name: "Gone", Exported: true, Plenc: "-", T: B("int")})
+			}
+			return Struct(&FieldDef{Name: "hidden", Exported: false, Plenc: "1", T: B("str")})
+		}
 		for _, f := range t.Fields {
 			if fieldEncoded(f) && g.r.P(25) {
 				g.count("evolve.removed")
